@@ -564,9 +564,11 @@ class DynDiGraph(nx.DiGraph):
         # add the interaction
         datadict = self.adj[u].get(v, self.edge_attr_dict_factory())
 
+        new_from = t[0]
         if 't' in datadict:
             app = datadict['t']
             max_end = app[-1][1]
+            new_from = max(t[0], max_end + 1)
 
             if max_end == app[-1][0] and t[0] == app[-1][0] + 1:
 
@@ -611,20 +613,12 @@ class DynDiGraph(nx.DiGraph):
         else:
             datadict['t'] = [t]
 
-        if e is not None:
-            span = range(t[0], t[1] + 1)
-            for idt in span:
-                if idt not in self.snapshots:
-                    self.snapshots[idt] = 1
-                else:
-                    self.snapshots[idt] += 1
-        else:
-            for idt in t:
-                if idt is not None:
-                    if idt not in self.snapshots:
-                        self.snapshots[idt] = 1
-                    else:
-                        self.snapshots[idt] += 1
+        # each instant at which the interaction becomes present counts once (counters are halved on read)
+        for idt in range(new_from, t[1] + 1):
+            if idt not in self.snapshots:
+                self.snapshots[idt] = 2
+            else:
+                self.snapshots[idt] += 2
 
         self._succ[u][v] = datadict
         self._pred[v][u] = datadict
